@@ -116,7 +116,16 @@ def corpus():
                                                                       ["b", {"k": "pref", "inst": "i4", "port": "b"}]]},
                      {"n": "i6", "of": copy.deepcopy(E12b), "conns": [["a", {"k": "pref", "inst": "i4", "port": "a"}],
                                                                       ["b", {"k": "concat", "ps": [{"k": "pref", "inst": "i4", "port": "a"}, {"k": "sig", "n": "g"}]}]]}]}]}
-    return [{"design": d10, "style": "proc"}, {"design": d10, "style": "class"}, {"design": d9, "style": "proc"}, {"design": d9, "style": "class"}, {"design": d8, "style": "proc"}, {"design": d8, "style": "class"}, {"design": d7, "style": "proc"}, {"design": d7, "style": "class"}, {"design": d6, "style": "proc"}, {"design": d6, "style": "gen"},
+    # runs of bits taken out of strided slices of a bus (seed C01-r8-1: a resolver shortcut that forgets the stride keeps every width)
+    ss = lambda inner, outer: {"k": "slice", "p": {"k": "slice", "p": {"k": "sig", "n": "bus"}, "i": inner}, "i": outer}
+    d11 = {"bundles": [], "top": "Top", "modules": [{"name": "Top", "sigs": [{"n": "bus", "w": 8, "port": True, "dir": "none"}], "bundles": [],
+           "insts": [{"n": "i0", "of": copy.deepcopy(E12), "conns": [["a", {"k": "slice", "p": {"k": "sig", "n": "bus"}, "i": {"i": 0}}],
+                                                                     ["b", ss({"s": None, "e": None, "st": 2}, {"s": 1, "e": 3, "st": None})]]},
+                     {"n": "i1", "of": copy.deepcopy(E12), "conns": [["a", ss({"s": None, "e": None, "st": 2}, {"i": -1})],
+                                                                     ["b", ss({"s": 1, "e": None, "st": 3}, {"s": 0, "e": 2, "st": None})]]},
+                     {"n": "i2", "of": copy.deepcopy(E12), "conns": [["a", ss({"s": 7, "e": None, "st": -2}, {"i": 1})],
+                                                                     ["b", ss({"s": 7, "e": None, "st": -2}, {"s": 1, "e": 3, "st": None})]]}]}]}
+    return [{"design": d11, "style": "proc"}, {"design": d11, "style": "class"}, {"design": d10, "style": "proc"}, {"design": d10, "style": "class"}, {"design": d9, "style": "proc"}, {"design": d9, "style": "class"}, {"design": d8, "style": "proc"}, {"design": d8, "style": "class"}, {"design": d7, "style": "proc"}, {"design": d7, "style": "class"}, {"design": d6, "style": "proc"}, {"design": d6, "style": "gen"},
             {"design": d1, "style": "proc"}, {"design": d2, "style": "proc"}, {"design": d3, "style": "proc"}, {"design": d3, "style": "class"},
             {"design": d4, "style": "proc"}, {"design": d4, "style": "gen"}, {"design": d5, "style": "proc"}, {"design": d5, "style": "class"}]
 
